@@ -33,6 +33,8 @@ type R<T> = libcnb::Result<T, TbError>;
 impl Ref {
     fn path(&self) -> PathBuf { match self { Ref::C(r) => r.path(), Ref::U(r) => r.path() } }
     fn write_metadata(&self, m: toml::Table) -> R<()> { match self { Ref::C(r) => r.write_metadata(m), Ref::U(r) => r.write_metadata(m) } }
+    /// `write_metadata` with a value serde accepts but TOML cannot encode (an unsigned integer above i64::MAX)
+    fn write_metadata_unencodable(&self) -> R<()> { #[derive(serde::Serialize)] struct Big { checksum: u64 } let m = Big { checksum: u64::MAX }; match self { Ref::C(r) => r.write_metadata(m), Ref::U(r) => r.write_metadata(m) } }
     fn write_env(&self, e: &LayerEnv) -> R<()> { match self { Ref::C(r) => r.write_env(e), Ref::U(r) => r.write_env(e) } }
     fn write_sboms(&self, s: &[Sbom]) -> R<()> { match self { Ref::C(r) => r.write_sboms(s), Ref::U(r) => r.write_sboms(s) } }
     fn write_exec_d(&self, p: Vec<(String, PathBuf)>) -> R<()> { match self { Ref::C(r) => r.write_exec_d_programs(p), Ref::U(r) => r.write_exec_d_programs(p) } }
@@ -199,6 +201,7 @@ fn run_case(f: &[String]) -> String {
                 Some(r) => {
                     let res: Result<(), String> = match w {
                         "M" => { let q: Vec<&str> = p[2].split('_').collect(); r.write_metadata(mk_table(opt_int(q[0]), opt_int(q[1]))).map_err(|e| err_kind(&e).to_string()) }
+                        "N" => r.write_metadata_unencodable().map_err(|e| err_kind(&e).to_string()),
                         "E" => { let mut le = LayerEnv::new();
                             for i in split_list(p[2], ",") { let q: Vec<&str> = i.split('/').collect(); le.insert(parse_scope(q[0]), parse_beh(q[1]), os(&unhex(q[2]).unwrap()), os(&unhex(q[3]).unwrap())); }
                             r.write_env(&le).map_err(|e| err_kind(&e).to_string()) }
@@ -228,7 +231,7 @@ fn alphabet(n: &str) -> Vec<String> {
     } } }
     a.push(format!("C.{n}.10.V.d1.k2")); a.push(format!("C.{n}.01.G.d1.k2"));
     a.push(format!("U.{n}.10")); a.push(format!("U.{n}.01"));
-    a.push(format!("M.{n}.1_~")); a.push(format!("M.{n}.~_7"));
+    a.push(format!("M.{n}.1_~")); a.push(format!("M.{n}.~_7")); a.push(format!("N.{n}"));
     a.push(format!("S.{n}.-")); a.push(format!("S.{n}.1=6f6c64"));
     a.push(format!("E.{n}.A/a/50/76,P:776562/o/51/77"));
     a.push(format!("X.{n}.{}=2321", hex(b"prog")));
